@@ -14,6 +14,7 @@ Require Import V.Oracle.C20Oracle.
 Require Import V.Proofs.SubscriptionProofs.
 Require Import V.Proofs.AssemblerProofs.
 Require Import V.Proofs.C20OracleProofs.
+Require Import V.Proofs.C20HistoryProofs.
 Open Scope Z_scope.
 
 (* poll_inner with any poll flavour that returns between 0 and the limit it is given: the total is at most
@@ -101,7 +102,33 @@ Theorem C20_midjoin_then_messages : forall mid msgs,
 Proof. exact run1_midjoin_then_messages. Qed.
 Print Assumptions C20_midjoin_then_messages.
 
+(* ---- the oracle is true on the model, for every operation and every history ----
+   st_rel: the oracle's bookkeeping (image list, positions as observed, starting index, per-session reassembly state) agrees
+   with the model's state; st_inv: slots well-built (frames carry their image's session id, positive lengths), ids distinct,
+   listed images open; sessions_distinct: one image per session.  case_ok: geometry / offsets non-negative, frame lengths
+   positive, session ids of the slots distinct, block limits in i32. *)
+Theorem C20_oracle_step : forall m nslots ost st o, sop_ok o ->
+  st_rel ost st -> st_inv nslots st -> sessions_distinct st ->
+  let '(ob, st') := sstep m nslots st o in
+  judge_sop ost o ob = true /\ st_rel (onext20 ost o ob) st' /\ st_inv nslots st' /\ sessions_distinct st'.
+Proof. exact sstep_judged. Qed.
+Print Assumptions C20_oracle_step.
+
+Theorem C20_oracle_history : forall m slots initial ops, case_ok slots ops ->
+  holds_sub_case slots initial ops (run_sub_case m slots initial ops) = true.
+Proof. exact sub_case_judged. Qed.
+Print Assumptions C20_oracle_history.
+
 (* ---- non-vacuity ---- *)
+Example C20_case_ok_example :
+  case_ok [(16, 5, 77, 0, (0, 0, 4, false, [(1, 192, 40, 1, 0); (1, 192, 41, 2, 0); (1, 192, 42, 3, 0); (1, 192, 43, 4, 0)]));
+           (16, 9, 88, 64, (0, 64, 3, false, [(1, 128, 64, 8, 0); (1, 64, 64, 9, 0); (1, 192, 33, 10, 0)]))]
+          [SPoll 2; SBlock 64; SCPoll 3 1 [Commit; Abort]].
+Proof. unfold case_ok. split; [|split].
+  - repeat constructor; cbn; lia.
+  - repeat constructor; cbn; intuition lia.
+  - repeat constructor. Qed.
+
 Example C20_fair_example : fst (rr_run 3 0 8) = [0; 1; 2; 0; 0; 1; 2; 0] /\ fst (rr_run 3 2 4) = [2; 0; 0; 1].
 Proof. split; reflexivity. Qed.
 
